@@ -161,7 +161,11 @@ func invokeOn(recvSuffix string, methods ...string) eng.Matcher {
 		if r == nil {
 			return false
 		}
-		return strings.HasSuffix(p.Desc(r), recvSuffix)
+		if strings.HasSuffix(p.Desc(r), recvSuffix) {
+			return true
+		}
+		// the receiver handed to a helper as a parameter: judged by what the (single) caller passes
+		return strings.HasPrefix(recvSuffix, ".") && strings.HasSuffix(p.DescUp(eng.Unwrap(r)), recvSuffix)
 	}
 }
 
@@ -609,11 +613,18 @@ func groupingIntersectsPerTagKey(c *eng.Ctx) {
 	p := c.P
 	f := c.Fn("index.forwardIndex.GetGroupingContext")
 	gs := c.One(f, eng.CallTo("index.forwardIndex.getGroupingScanners"), "getGroupingScanners(tagKeyID, …)")
-	loop := innermostLoop(f, gs.Instr.Block())
+	gtop := eng.TopOf(f, gs)
+	if gtop == nil {
+		c.Undecided("getGroupingScanners is reached through several call sites")
+	}
+	loop := innermostLoop(f, gtop.Block())
 	if loop == nil {
 		c.Undecided("getGroupingScanners is not called in a loop over the group-by tag keys")
 	}
 	inLoop := func(b *ssa.BasicBlock) bool {
+		if b.Parent() != f {
+			return false
+		}
 		for _, h := range loopsOf(f, b) {
 			if h == loop {
 				return true
@@ -621,27 +632,34 @@ func groupingIntersectsPerTagKey(c *eng.Ctx) {
 		}
 		return false
 	}
-	ands := p.SitesDirect(f, eng.AnyCallTo("github.com/lindb/roaring.Bitmap.And"))
+	// the intersections written in GetGroupingContext or in a helper it enters transparently
+	ands := p.Sites(f, eng.AnyCallTo("github.com/lindb/roaring.Bitmap.And"))
 	n := 0
 	for _, a := range ands {
 		n++
-		ok := innermostLoop(f, a.Instr.Block()) == loop
+		top := eng.TopOf(f, a)
+		ok := top != nil && innermostLoop(f, top.Block()) == loop
 		c.Check(ok, fmt.Sprintf("and-per-key[%d]", n), a.Instr, f,
 			"the candidate series are intersected with each tag key's series inside the per-key loop", "the intersection is not a statement of the loop over the group-by tag keys")
 		if !ok {
 			continue
 		}
-		everyIterationPasses(c, f, a, fmt.Sprintf("and-every-key[%d]", n), "every tag key's iteration reaches the intersection")
+		everyIterationPasses(c, f, eng.Site{Fn: f, Instr: top}, fmt.Sprintf("and-every-key[%d]", n), "every tag key's iteration reaches the intersection")
 		arg := eng.Unwrap(eng.CallArgs(a.Instr.(ssa.CallInstruction))[0])
+		if a.Instr.Parent() != f {
+			arg = eng.Unwrap(eng.UpParam(arg))
+		}
 		fresh := false
 		detail := "operand " + p.Desc(arg)
-		if cl, isCall := arg.(*ssa.Call); isCall && inLoop(cl.Block()) {
+		if cl, isCall := arg.(*ssa.Call); isCall && (inLoop(cl.Block()) || cl.Parent() != f) {
+			// created in this iteration (in the loop body, or inside the helper that is called per iteration)
 			fresh = true
 		} else {
 			// or the set is emptied at the start of the iteration
-			for _, s := range p.SitesDirect(f, eng.AnyCallTo("github.com/lindb/roaring.Bitmap.Clear")) {
-				if eng.Unwrap(eng.CallRecv(s.Instr.(ssa.CallInstruction))) == arg && inLoop(s.Instr.Block()) &&
-					eng.DominatedBy(f, a.Instr, []eng.Site{s}, nil) {
+			for _, s := range p.Sites(f, eng.AnyCallTo("github.com/lindb/roaring.Bitmap.Clear")) {
+				st := eng.TopOf(f, s)
+				if st != nil && eng.Unwrap(eng.CallRecv(s.Instr.(ssa.CallInstruction))) == arg && inLoop(st.Block()) &&
+					eng.DominatedBy(f, top, []eng.Site{{Fn: f, Instr: st}}, nil) {
 					fresh = true
 				}
 			}
